@@ -7,7 +7,7 @@
    functions are total, and [at_rest] shows the decode loop stops only where no
    further frame is decodable (its fuel is never what stops it). *)
 From MC Require Import Model.Base Model.Generated Model.Store Model.Codec Model.Handler Model.Conn
-  Spec.Quiet Proofs.CodecLemmas Proofs.Framing Proofs.Chunking Proofs.PC10.
+  Spec.Quiet Proofs.CodecLemmas Proofs.Framing Proofs.Chunking Proofs.PC10 Proofs.PDispatch.
 
 (* for every codec state, buffer and limit *)
 Theorem C10_decode_never_panics : forall c src, snd (decode c src) <> DPanic.
@@ -64,3 +64,12 @@ Example C10_nonvacuous :
                                 x00;x00;x00;x00; xff;xff;xff;xff;xff;xff;xff;xff]) = DFrame
     (ReqTooLarge (mkHdr 128 5 65535 255 0 0 4294967295 0 18446744073709551615)).
 Proof. vm_compute. reflexivity. Qed.
+
+(* the decoder's dispatch is the source's: every opcode goes to the body parser that
+   the table regenerated on every run from the match in
+   MemcacheBinaryCodec::parse_request names (a changed arm there changes
+   Generated.decode_dispatch and this obligation no longer checks) *)
+Theorem C10_decode_dispatch_is_source : forall h body,
+  parse_body h body = run_parser (source_parser_id (h_opcode h)) h body.
+Proof. exact parse_body_is_source_dispatch. Qed.
+Print Assumptions C10_decode_dispatch_is_source.
